@@ -59,6 +59,11 @@ Fixpoint blocks (k cnt : nat) (l : list N) : list (list N) :=
   | S c => firstn k l :: blocks k c (skipn k l)
   end.
 
+(* truncation to a 64-bit register and the carry out of it, in bitwise form (they evaluate much faster than
+   mod / div by 2^64; proofs/Csum_proofs.v: wrap64 x = w64 x, carry64 s = s / 2^64) *)
+Definition wrap64 (x : N) : N := N.land x 18446744073709551615.
+Definition carry64 (s : N) : N := N.shiftr s 64.
+
 (* ADDQ src, AX ; ADCQ $0, AX   (64-bit add, then add the carry flag back in) *)
 Definition addq_adcq (ax src : N) : N :=
   let s := ax + src in w64 (w64 s + s / M64).
@@ -73,7 +78,7 @@ Definition words32 (blk : list N) : list N := map le_val (blocks 4 (length blk /
 (* VPADDQ: lane-wise 64-bit add that wraps; a 32-byte trip supplies only 8 words, touching Y4 and Y5 *)
 Fixpoint vpaddq (acc ws : list N) : list N :=
   match acc, ws with
-  | a :: acc', w :: ws' => w64 (a + w) :: vpaddq acc' ws'
+  | a :: acc', w :: ws' => wrap64 (a + w) :: vpaddq acc' ws'
   | _, [] => acc
   | [], _ :: _ => []
   end.
@@ -134,7 +139,7 @@ Definition asm_csum (buf : list N) (init : N) : N :=
       [addr] is the address of buf[0] modulo 8 (only that much of the address influences the algorithm). *)
 
 (* bits.Add64(x, y, carry) -> (sum, carryOut) *)
-Definition add64c (x y c : N) : N * N := let s := x + y + c in (w64 s, s / M64).
+Definition add64c (x y c : N) : N * N := let s := x + y + c in (wrap64 s, carry64 s).
 
 (* one group of consecutive 8-byte loads chained through the carry, closed by Add64(acc, 0, carry) *)
 Definition add_chain (acc : N) (ws : list N) : N :=
